@@ -109,6 +109,10 @@ def dynamic_cases(tier: str) -> List[Dict[str, Any]]:
             for fl in (filters if tier == "thorough" or cc in ("us", "jp") else filters[:2]):
                 out.append({"kind": "valid", "country": cc, "opts": opts + fl, "shape": name, "ini": CS.ini_for(shape), "sheets": CS.matrices(shape)})
         out.append({"kind": "valid", "country": "us", "opts": [], "shape": name, "ini": CS.ini_for(shape, methods={2015: "fifo", 2021: "hifo"}), "sheets": CS.matrices(shape)})
+        # the two environment switches RP2 reads: debug logging and the profiler
+        out.append({"kind": "valid", "country": "us", "opts": ["-m", "lifo"], "shape": name, "ini": CS.ini_for(shape), "sheets": CS.matrices(shape), "env": {"LOG_LEVEL": "DEBUG"}})
+        out.append({"kind": "valid", "country": "jp", "opts": ["-g", "en"], "shape": name, "ini": CS.ini_for(shape), "sheets": CS.matrices(shape), "env": {"RP2_ENABLE_PROFILER": "1"}})
+        out.append({"kind": "valid", "country": "es", "opts": [], "shape": name, "ini": CS.ini_for(shape), "sheets": CS.matrices(shape), "env": {"LOG_LEVEL": "DEBUG", "RP2_ENABLE_PROFILER": "1"}})
     # invalid inputs: every command-line / config / structure / field fault of C12's end-to-end list (they end in the fatal-error paths)
     bad = c12.cli_cases("quick")
     if tier == "quick":
@@ -123,7 +127,7 @@ def dynamic_cases(tier: str) -> List[Dict[str, Any]]:
         bad = keep
     for c in bad:
         out.append({"kind": "invalid", "country": c.get("country", "us"), "opts": list(c.get("extra", [])) + list(c["opts"]), "shape": c["why"], "ini": c["ini"], "sheets": c["sheets"],
-                    "input_name": c.get("input_name"), "config_name": c.get("config_name")})
+                    "input_name": c.get("input_name"), "config_name": c.get("config_name"), "env": {"LOG_LEVEL": "DEBUG"} if len(out) % 5 == 0 else None})
     for i, c in enumerate(out):
         c["id"] = i
     return out
@@ -152,13 +156,15 @@ def judge(st: Stats, case: Dict[str, Any]) -> None:
         argv = ["-o", ws.out] + list(case["opts"]) + [ini, ods]
         allowed = (os.path.realpath(ws.out) + os.sep, os.path.realpath(os.path.join(ws.cwd, "log")) + os.sep)
         allowed_dirs = (os.path.realpath(ws.out), os.path.realpath(os.path.join(ws.cwd, "log")))
-        tag = f"rp2_{case['country']} {' '.join(case['opts'])} on {case['kind']} input '{case['shape']}'"
-        payload = {"kind": "dynamic", "case": {k: case[k] for k in ("kind", "country", "opts", "shape", "ini", "sheets", "input_name", "config_name") if k in case}}
+        env = dict(GENERIC_ENV) if case["country"] == "generic" else {}
+        env.update(case.get("env") or {})
+        tag = f"{' '.join(f'{k}={v}' for k, v in (case.get('env') or {}).items())} rp2_{case['country']} {' '.join(case['opts'])} on {case['kind']} input '{case['shape']}'".strip()
+        payload = {"kind": "dynamic", "case": {k: case[k] for k in ("kind", "country", "opts", "shape", "ini", "sheets", "input_name", "config_name", "env") if k in case}}
         before = snapshot(ws.root)
         for run_no in (1, 2):
             st.inc("evaluations")
             st.inc(f"runs_{case['kind']}")
-            res = cli.run_fresh(case["country"], argv, ws.cwd, ws.out, env_extra=GENERIC_ENV if case["country"] == "generic" else None, audit=True)
+            res = cli.run_fresh(case["country"], argv, ws.cwd, ws.out, env_extra=env or None, audit=True)
             events = res.audit or []
             if res.audit is None or (not events and res.exit == 0):
                 st.violation(dict(payload, signature="C18 harness: no audit record", what=f"{tag} run {run_no}: the audit hook recorded nothing (exit {res.exit})"))
